@@ -101,7 +101,7 @@ pub enum LeafSpec {
 
 /// fields of the typed schema (index = id used towards the Lean model)
 pub const FIELDS: &[&str] = &[
-    "title", "body", "tag", "n_u64", "n_i64", "n_f64", "when", "ip", "blob", "flag", "cat", "js.k", "js.n", "js.a.b",
+    "title", "body", "tag", "n_u64", "n_i64", "n_f64", "when", "ip", "blob", "flag", "cat", "js.k", "js.n", "js.a.b", "stop",
     // names that are not in the schema (grammar-level tests only)
     "nofield", "a.b", "x_y",
 ];
@@ -119,7 +119,10 @@ pub const F_CAT: usize = 10;
 pub const F_JSK: usize = 11;
 pub const F_JSN: usize = 12;
 pub const F_JSAB: usize = 13;
-pub const N_SCHEMA_FIELDS: usize = 14;
+/// text field whose analyzer (SimpleTokenizer + LowerCaser + StopWordFilter) drops tokens but keeps positions
+pub const F_STOP: usize = 14;
+pub const N_SCHEMA_FIELDS: usize = 15;
+pub const STOP_WORDS: &[&str] = &["the", "of"];
 
 pub const WORDS: &[&str] = &["a", "b", "c", "d", "e", "ab", "abc", "bcd", "zed"];
 pub const TAGS: &[&str] = &["t1", "t2", "x-y", "k:v", "sp ace", "Up"];
@@ -141,6 +144,8 @@ pub struct DocRec {
     pub jsk: String,
     pub jsn: i64,
     pub jsab: String,
+    /// raw words of the stop-word field (stop words included)
+    pub stop: Vec<String>,
 }
 
 pub const DATE_BASE: i64 = 1_033_570_800; // 2002-10-02T15:00:00Z
@@ -200,6 +205,10 @@ pub fn gen_doc(rng: &mut Rng) -> DocRec {
         jsk: rng.pick(WORDS).to_string(),
         jsn: *rng.pick(&[1i64, 2, 5, 42]),
         jsab: rng.pick(WORDS).to_string(),
+        stop: {
+            let n = rng.usize_below(8);
+            (0..n).map(|_| if rng.chance(1, 3) { rng.pick(STOP_WORDS).to_string() } else { rng.pick(WORDS).to_string() }).collect()
+        },
     }
 }
 
@@ -217,6 +226,7 @@ impl DocRec {
             "flag": self.flag,
             "cat": self.cat,
             "js": {"k": self.jsk, "n": self.jsn, "a": {"b": self.jsab}},
+            "stop": self.stop.join(" "),
         })
     }
     /// the indexed values of a field, as the analysed terms
@@ -236,22 +246,51 @@ impl DocRec {
             F_JSK => vec![Val::Str(self.jsk.clone())],
             F_JSN => vec![Val::I(self.jsn)],
             F_JSAB => vec![Val::Str(self.jsab.clone())],
+            F_STOP => self.stop.iter().filter(|w| !STOP_WORDS.contains(&w.as_str())).map(|w| Val::Str(w.clone())).collect(),
             _ => vec![],
         }
     }
-    pub fn tokens(&self, f: usize) -> Option<&Vec<String>> {
+    /// the analysed tokens of a text field with their positions (a dropped stop word leaves a gap)
+    pub fn positions(&self, f: usize) -> Option<Vec<(i64, String)>> {
         match f {
-            F_TITLE => Some(&self.title),
-            F_BODY => Some(&self.body),
+            F_TITLE => Some(self.title.iter().enumerate().map(|(i, w)| (i as i64, w.clone())).collect()),
+            F_BODY => Some(self.body.iter().enumerate().map(|(i, w)| (i as i64, w.clone())).collect()),
+            F_STOP => Some(kept_positions(f, &self.stop)),
             _ => None,
         }
     }
 }
 
+/// counterfactual switch for the known defect of `PhrasePrefixScorer` (a gap right before the
+/// prefix term of a phrase with >= 3 kept terms is ignored: the prefix term is expected directly
+/// after the last phrase term): when set, `matches_on` evaluates prefix phrases that way
+pub static PREFIX_GAP_DEFECT: std::sync::atomic::AtomicBool = std::sync::atomic::AtomicBool::new(false);
+
+/// does the query contain a prefix phrase with >= 3 kept terms and dropped tokens right before the last one
+pub fn has_prefix_gap_leaf(g: &Gen) -> bool {
+    g.leaves.iter().any(|l| match l {
+        LeafSpec::Phrase { field: Some(f), words, prefix: true, .. } => {
+            let q = kept_positions(*f, words);
+            q.len() >= 3 && q[q.len() - 1].0 != q[q.len() - 2].0 + 1
+        }
+        _ => false,
+    })
+}
+
+/// what the field's analyzer keeps of a word sequence: (position, lower-cased token)
+pub fn kept_positions(f: usize, words: &[String]) -> Vec<(i64, String)> {
+    words
+        .iter()
+        .enumerate()
+        .map(|(i, w)| (i as i64, w.to_lowercase()))
+        .filter(|(_, w)| f != F_STOP || !STOP_WORDS.contains(&w.as_str()))
+        .collect()
+}
+
 /// how a query-side literal is analysed on a field: text fields lower-case, `tag` is raw
 fn analysed(f: usize, lit: &Lit) -> Val {
     match (&lit.val, f) {
-        (Val::Str(s), F_TITLE | F_BODY | F_JSK | F_JSAB) => Val::Str(s.to_lowercase()),
+        (Val::Str(s), F_TITLE | F_BODY | F_JSK | F_JSAB | F_STOP) => Val::Str(s.to_lowercase()),
         (v, _) => v.clone(),
     }
 }
@@ -274,21 +313,30 @@ impl LeafSpec {
                 doc.vals(f).iter().any(|v| v.term_eq(&q))
             }
             LeafSpec::Phrase { words, slop, prefix, .. } => {
-                let toks = match doc.tokens(f) {
+                let toks = match doc.positions(f) {
                     Some(t) => t,
                     None => return false,
                 };
-                let ws: Vec<String> = words.iter().map(|w| w.to_lowercase()).collect();
-                let n = ws.len();
-                if *prefix {
-                    (0..toks.len()).any(|s| s + n <= toks.len() && (0..n - 1).all(|k| toks[s + k] == ws[k]) && toks[s + n - 1].starts_with(ws[n - 1].as_str()))
-                } else if *slop == 0 {
-                    (0..toks.len()).any(|s| s + n <= toks.len() && (0..n).all(|k| toks[s + k] == ws[k]))
+                // the phrase is analysed like the field: dropped tokens keep their position (offset)
+                let q = kept_positions(f, words);
+                if q.is_empty() {
+                    return false;
+                }
+                let has = |p: i64, w: &str, as_prefix: bool| toks.iter().any(|(tp, tw)| *tp == p && if as_prefix { tw.starts_with(w) } else { tw == w });
+                if *slop == 0 || *prefix {
+                    let n = q.len();
+                    let defect = *prefix && n >= 3 && PREFIX_GAP_DEFECT.load(std::sync::atomic::Ordering::Relaxed);
+                    toks.iter().any(|(p0, w0)| {
+                        (if n == 1 && *prefix { w0.starts_with(q[0].1.as_str()) } else { *w0 == q[0].1 })
+                            && (1..n).all(|k| {
+                                let off = if defect && k == n - 1 { q[n - 2].0 + 1 } else { q[k].0 };
+                                has(p0 + off - q[0].0, &q[k].1, *prefix && k == n - 1)
+                            })
+                    })
                 } else {
-                    // two words only (generator invariant): |pos(a) + 1 - pos(b)| <= slop
-                    let pa: Vec<i64> = toks.iter().enumerate().filter(|(_, t)| **t == ws[0]).map(|(i, _)| i as i64).collect();
-                    let pb: Vec<i64> = toks.iter().enumerate().filter(|(_, t)| **t == ws[1]).map(|(i, _)| i as i64).collect();
-                    pa.iter().any(|a| pb.iter().any(|b| (a + 1 - b).abs() <= *slop as i64))
+                    // two kept words only (generator invariant): |pos(a) + (off_b - off_a) - pos(b)| <= slop
+                    let d = q[1].0 - q[0].0;
+                    toks.iter().filter(|(_, w)| *w == q[0].1).any(|(a, _)| toks.iter().filter(|(_, w)| *w == q[1].1).any(|(b, _)| (a + d - b).abs() <= *slop as i64))
                 }
             }
             LeafSpec::Range { lo, hi, .. } => doc.vals(f).iter().any(|v| {
